@@ -3,13 +3,13 @@ package main
 func init() {
 	properties["C01"] = &Property{
 		Title:      "blocks expand back to the input (round trip)",
-		Rules:      []string{"R-TILE", "R-LITPAIR", "R-BLOCK-FRESH", "R-BLOCKCLIP", "R-OFFSET-AGREE", "R-PREFIX-STOP", "R-PREFIX-BOUND", "R-PREFIX-ALIGN", "R-INVALIDATE", "R-OSAP-RANGE", "R-OSAP-INDEX", "R-SHRINK-WRAP", "R-SHRINK-PB"},
+		Rules:      []string{"R-TILE", "R-LITPAIR", "R-BLOCK-FRESH", "R-BLOCKCLIP", "R-OFFSET-AGREE", "R-PREFIX-STOP", "R-PREFIX-BOUND", "R-PREFIX-ALIGN", "R-INVALIDATE", "R-OSAP-RANGE", "R-OSAP-INDEX", "R-SHRINK-WRAP", "R-SHRINK-PB", "R-CMP-ALIGNED"},
 		Decided:    "tiling of the block by literal runs and matches (cursor discipline, epilogue), LitLen/literal pairing, agreement of the emitted Offset with the positions actually compared (every word/prefix comparison feeding MatchLen is between x and x−Offset and starts where the verified part ends), re-basing/dropping of all search state on Shrink, recompute guard of OSAP's unverified edges.",
 		NotDecided: "byte-for-byte equality of the expansion; correctness of the 8-byte compare arithmetic, lcp/lcs, suffix.Sort/LCP/Segments.",
 	}
 	properties["C02"] = &Property{
 		Title:      "sequences are well-formed and inside the window",
-		Rules:      []string{"R-WINGUARD", "R-MINLEN", "R-AUX", "R-LITPAIR", "R-OFFSET-BACK"},
+		Rules:      []string{"R-WINGUARD", "R-MINLEN", "R-AUX", "R-LITPAIR", "R-OFFSET-BACK", "R-CMP-ALIGNED"},
 		Decided:    "window guard 0<o≤WindowSize, lower bound of MatchLen, Aux zero, LitLen pairing at every emission site.",
 		NotDecided: "for OSAP, Offset ≤ bytes before the match rests on suffix-array entries being ≥ 0 (C09); decided for the six self-verifying parsers (R-OFFSET-BACK).",
 	}
@@ -21,9 +21,9 @@ func init() {
 	}
 	properties["C14"] = &Property{
 		Title:      "Parse(nil) skips a block",
-		Rules:      []string{"R-CLAMP-N", "R-EMPTY", "R-ADVANCE", "R-NIL-NOEMIT", "R-GSAP-COVERED"},
-		Decided:    "nil branch: clamp, (0,ErrEmptyBuffer) iff n₀==0, W advanced by the returned n, blk never dereferenced.",
-		NotDecided: "that blocks parsed afterwards remain correct (C01).",
+		Rules:      []string{"R-CLAMP-N", "R-EMPTY", "R-ADVANCE", "R-NIL-NOEMIT", "R-GSAP-COVERED", "R-OSAP-RANGE", "R-HASHRANGE"},
+		Decided:    "nil branch: clamp, (0,ErrEmptyBuffer) iff n₀==0, W advanced by the returned n, blk never dereferenced; the structures a later Parse relies on are addressed through W itself (OSAP edge table range) and the skipped positions enter the hash tables only as complete n-grams with the value lookups compare.",
+		NotDecided: "that blocks parsed afterwards remain correct in general (C01).",
 	}
 }
 
@@ -42,7 +42,7 @@ func init() {
 	}
 	properties["C06"] = &Property{
 		Title:       "every decoder call terminates",
-		Rules:       []string{"R-LOOPS-DECODER", "R-OFFGUARD", "R-SHRINK-SAFE"},
+		Rules:       []string{"R-LOOPS-DECODER", "R-OFFGUARD", "R-SHRINK-SAFE", "R-DRAIN-COMPLETE"},
 		Decided:     "every loop reachable from Decoder/DecoderBuffer methods matches a termination template (range, counting, doubling copy with off ≥ 1, retry with clamp or strict progress).",
 		NotDecided:  "the arithmetic side conditions of the templates for all values (argued once in DESIGN.md, only matched here).",
 		Assumptions: []string{"the destination io.Writer returns"},
@@ -61,7 +61,7 @@ func init() {
 	}
 	properties["C18"] = &Property{
 		Title:      "output exactly once under writer faults",
-		Rules:      []string{"R-SINGLE-SINK", "R-CURSOR", "R-SHRINK-SAFE", "R-ERR-SURFACE", "R-SUM", "R-REMAINDER"},
+		Rules:      []string{"R-SINGLE-SINK", "R-CURSOR", "R-SHRINK-SAFE", "R-ERR-SURFACE", "R-SUM", "R-REMAINDER", "R-DRAIN-COMPLETE"},
 		Decided:    "single writer call site with argument Data[R:]; R advanced by the writer's count on all paths; compaction never drops unread bytes; writer errors surfaced with the accumulators.",
 		NotDecided: "the exactly-once conclusion is the composition of these with C04/C17; argued, not computed.",
 	}
@@ -123,7 +123,7 @@ func init() {
 func init() {
 	properties["C12"] = &Property{
 		Title:       "GSAP always takes the longest available match",
-		Rules:       []string{"R-STRIDE", "R-GSAP-INSERT", "R-GSAP-BOTH", "R-GSAP-REBUILD", "R-GSAP-COVERED", "R-COPY-CLOBBER", "R-RESET-COVER"},
+		Rules:       []string{"R-STRIDE", "R-GSAP-INSERT", "R-GSAP-BOTH", "R-GSAP-REBUILD", "R-GSAP-COVERED", "R-COPY-CLOBBER", "R-RESET-COVER", "R-GSAP-REWIND", "R-CMP-ALIGNED", "R-BITSET-PAIR"},
 		Decided:     "the scan visits every uncovered position exactly once up to the block end; the current rank is inserted before both neighbour queries and every covered position is inserted; both neighbours are queried, measured against the block-clipped data and the larger length is emitted; the block is scanned only inside the current suffix array or after a rebuild that restores the whole window; the search set's storage is not clobbered when re-grown; Reset/Shrink drop the suffix arrays.",
 		NotDecided:  "that the two suffix-array neighbours give the longest previous match (needs a correct suffix array, C09) and the bit tricks inside bitset.memberBefore/memberAfter/insert.",
 		Assumptions: []string{"suffix.Sort yields the suffix array (C09)", "bitset queries return the nearest members (bit-level arithmetic not decided)"},
@@ -143,7 +143,7 @@ func init() {
 func init() {
 	properties["C19"] = &Property{
 		Title:       "matches are maximal; byte runs are compressed (structural clauses)",
-		Rules:       []string{"R-OFFSET-AGREE", "R-EXT-COVER", "R-PREFIX-STOP", "R-PREFIX-COVER", "R-PREFIX-BOUND", "R-PREFIX-ALIGN", "R-BACKEXT", "R-REINDEX", "R-CAND-MEASURED", "R-STRIDE", "R-GSAP-BOTH"},
+		Rules:       []string{"R-OFFSET-AGREE", "R-EXT-COVER", "R-PREFIX-STOP", "R-PREFIX-COVER", "R-PREFIX-BOUND", "R-PREFIX-ALIGN", "R-BACKEXT", "R-REINDEX", "R-CAND-MEASURED", "R-STRIDE", "R-GSAP-BOTH", "R-GSAP-WINFALLBACK", "R-CMP-ALIGNED"},
 		Decided:     "for every non-optimizing parser: each comparison feeding MatchLen is between x and x−Offset and starts where the verified part ends; every path to an emission ends with a mismatch witness or at the block end (extension loops keep k + len(q) = len(p) − i, tail compared only with ≤ 7 bytes left); the backward extension covers min(pending literals, source position) bytes exactly when literals are pending; the scanned position and every position covered by a match are indexed; a table candidate with equal hash input inside the window is always measured.",
 		NotDecided:  "the run clause as a count of literals per block (depends on hash values and table contents at run time); maximality as a fact about bytes rests on the trusted semantics of the word loaders and of lcp/lcs.",
 		Assumptions: []string{"_getLE64/getLE64 load the little-endian word at the start of their argument; lcp/lcs return exact common prefix/suffix lengths"},
